@@ -346,7 +346,108 @@ func wfFn(f *fnv) (bool, []string) {
 			ok = false
 		}
 	}
+	if !c.strreg() {
+		ok = false
+	}
 	return ok, c.why
+}
+
+// ---- port of coq/VM/StrKey.v (strreg_fn): register-form string keys of SELF / GETTABLEKS ----
+
+func (f *fnv) word(t int) uint32 {
+	if t < 0 || t >= len(f.code) {
+		return 0
+	}
+	return f.code[t]
+}
+
+// succs mirrors i_succ of Skeleton.v's sk_inst.
+func (f *fnv) succs(pc int) []int {
+	w := f.code[pc]
+	op := dOp(w)
+	if op > opNOP {
+		return nil
+	}
+	C, sBx := dC(w), dSbx(w)
+	switch op {
+	case opMOVEN:
+		return []int{pc + 1 + C}
+	case opLOADBOOL, opSETLIST:
+		if C == 0 && op == opLOADBOOL || C != 0 && op == opSETLIST {
+			return []int{pc + 1}
+		}
+		return []int{pc + 2}
+	case opJMP, opFORPREP:
+		return []int{pc + 1 + sBx}
+	case opEQ, opLT, opLE, opTEST, opTESTSET:
+		return []int{pc + 1, pc + 2}
+	case opTAILCALL, opRETURN:
+		return nil
+	case opFORLOOP:
+		return []int{pc + 1, pc + 1 + sBx}
+	case opTFORLOOP:
+		return []int{pc + 2, pc + 2 + dSbx(f.word(pc+1))}
+	case opCLOSURE:
+		k := 0
+		if bx := dBx(w); bx < len(f.nups) {
+			k = f.nups[bx]
+		}
+		return []int{pc + 1 + k}
+	}
+	return []int{pc + 1}
+}
+
+func regkeyOf(w uint32) (int, bool) {
+	switch dOp(w) {
+	case opSELF, opGETTABLEKS:
+		if c := dC(w); c < 256 {
+			return c, true
+		}
+	}
+	return 0, false
+}
+
+func (c *wfctx) strreg() bool {
+	f := c.f
+	any := false
+	for _, w := range f.code {
+		if _, ok := regkeyOf(w); ok {
+			any = true
+			break
+		}
+	}
+	if !any {
+		return true
+	}
+	targets := map[int]bool{}
+	for pc := range f.code {
+		if c.tags[pc] != 0 {
+			continue
+		}
+		for _, s := range f.succs(pc) {
+			if s != pc+1 {
+				targets[s] = true
+			}
+		}
+	}
+	ok := true
+	for pc, w := range f.code {
+		if c.tags[pc] != 0 {
+			continue
+		}
+		r, isKey := regkeyOf(w)
+		if !isKey {
+			continue
+		}
+		pw := f.word(pc - 1)
+		fed := c.isHead(pc-1) && dOp(pw) == opLOADK && dA(pw) == r && c.strConst(dBx(pw))
+		if !fed {
+			ok = c.fail(pc, "string key in register %d is not loaded by a LOADK of a string constant right before", r)
+		} else if targets[pc] {
+			ok = c.fail(pc, "string-keyed instruction with a register key is a jump/skip target: its LOADK can be bypassed")
+		}
+	}
+	return ok
 }
 
 // wfProto mirrors wf_proto: wf_fn on the function and recursively on every nested prototype.
